@@ -309,7 +309,9 @@ let run_unm t : string * string =
     let show (off, u) = match u with
       | URec (_, None, _, _) -> show_ures (int_of_nat off) u
       | _ -> if abnormal then Printf.sprintf "off=%d:cut" (int_of_nat off) else show_ures (int_of_nat off) u in
-    (String.concat "|" (List.map show l), "-")
+    (* a gzip magic inside a plain stream hands over to the gzip library: not modelled *)
+    let foreign = List.exists (function (_, UNone ((KOther, _), _)) -> true | _ -> false) l in
+    if foreign then ("-", "-") else (String.concat "|" (List.map show l), "-")
 
 (* ---------- main ---------- *)
 let run_line (line : string) : string * string =
